@@ -47,8 +47,8 @@ mutant('c01_followed_by_long_literal', 'C01', ['C01'], 'followed_by wraps a str 
 # ---- C02
 mutant('c02_enclose_no_group', 'C02', ['C02'], 'enclose stops group-wrapping the enclosing pattern',
        'Enclose(x, <alternation>)',
-       [(PRE, '        pre = __class__._to_pregex(pre)._concat_conditional_group()\n        pattern = f"{pre}{self._concat_conditional_group()}{pre}"',
-         '        pre = str(__class__._to_pregex(pre))\n        pattern = f"{pre}{self._concat_conditional_group()}{pre}"')])
+       [(PRE, '        pre = __class__._to_pregex(pre)._concat_conditional_group()\n        pattern = __class__.__join(',
+         '        pre = str(__class__._to_pregex(pre))\n        pattern = __class__.__join(')])
 mutant('c02_line_end_no_group', 'C02', ['C02'], 'match_at_line_end uses str(self) instead of the assertion-grouped text',
        'MatchAtLineEnd over an alternation',
        [(PRE, '        return __class__(f"{self._assert_conditional_group()}$", escape=False)', '        return __class__(f"{self}$", escape=False)')])
